@@ -58,19 +58,24 @@ func (p *PubSub) handleNewStream(s network.Stream) {
 	sentNewStream := false
 
 	defer func() {
-		p.inboundStreamsMx.Lock()
-		if p.inboundStreams[peer].s == s {
-			delete(p.inboundStreams, peer)
-		}
-		p.inboundStreamsMx.Unlock()
-		verifYield("inbound-unregistered", peer)
-
+		// Post the closed notification while we are still registered: a
+		// successor handler then waits for us (on done) and its own
+		// notifications are ordered after ours. Unregistering first left a
+		// window in which a successor could announce itself, have its hello
+		// processed, and then be wiped by our stale notification.
 		if sentNewStream {
 			select {
 			case p.incoming <- incomingUnion{kind: incomingKindClosedStream, s: s}:
 			case <-p.ctx.Done():
 			}
 		}
+
+		p.inboundStreamsMx.Lock()
+		if p.inboundStreams[peer].s == s {
+			delete(p.inboundStreams, peer)
+		}
+		p.inboundStreamsMx.Unlock()
+		verifYield("inbound-unregistered", peer)
 
 		close(done)
 	}()
